@@ -9,7 +9,8 @@ export GOFLAGS=-mod=mod GOPROXY=off GOSUMDB=off GOTOOLCHAIN=local
 wt="/tmp/scratch/try-$$"
 mkdir -p /tmp/scratch
 git -C /repo worktree add -q --detach "$wt" HEAD || exit 4
-cleanup() { git -C /repo worktree remove --force "$wt" >/dev/null 2>&1; rm -f /verif/.build/*-alt-* /verif/.build/alt-*; }
+tag=$(printf %s "$wt" | cksum | cut -d' ' -f1)
+cleanup() { git -C /repo worktree remove --force "$wt" >/dev/null 2>&1; rm -f /verif/.build/*-alt-$tag* /verif/.build/alt-$tag.*; }
 trap cleanup EXIT
 case "$patch" in revert:*)
 	h=${patch#revert:}
